@@ -120,8 +120,19 @@ pub fn fmt_match(m: &Match) -> String {
     s
 }
 
+/// Compile through one of the public constructors; which one is a pure function of the
+/// spec, so every pass (and the pristine process) compiles a given spec the same way.
 fn compile(spec: &RegexSpec) -> Result<Regex, String> {
-    Regex::with_flags(&spec.pattern, spec.flags.as_str()).map_err(|e| e.to_string())
+    let mut h = Fnv::default();
+    h.str(&spec.pattern);
+    h.str(&spec.flags);
+    let r = match (h.0 >> 7) % 4 {
+        1 => Regex::from_unicode(spec.pattern.chars().map(|c| c as u32), spec.flags.as_str()),
+        2 if spec.flags.is_empty() => Regex::new(&spec.pattern),
+        3 if spec.flags.is_empty() => spec.pattern.parse::<Regex>(),
+        _ => Regex::with_flags(&spec.pattern, spec.flags.as_str()),
+    };
+    r.map_err(|e| e.to_string())
 }
 
 /// Object-safe view of a concrete match iterator that keeps the *concrete* type's own
@@ -132,6 +143,10 @@ pub trait MatchIter {
     fn nth_(&mut self, k: usize) -> Option<Match>;
     fn count_rest(self: Box<Self>) -> usize;
     fn last_rest(self: Box<Self>) -> Option<Match>;
+    fn fold_rest(self: Box<Self>) -> (usize, Option<Match>);
+    fn for_each_rest(self: Box<Self>) -> (usize, Option<Match>);
+    fn collect_rest(self: Box<Self>) -> (usize, Option<Match>);
+    fn find_nonempty(&mut self) -> Option<Match>;
 }
 
 impl<I: Iterator<Item = Match>> MatchIter for I {
@@ -149,6 +164,25 @@ impl<I: Iterator<Item = Match>> MatchIter for I {
     }
     fn last_rest(self: Box<Self>) -> Option<Match> {
         Iterator::last(*self)
+    }
+    fn fold_rest(self: Box<Self>) -> (usize, Option<Match>) {
+        Iterator::fold(*self, (0usize, None), |(n, _), m| (n + 1, Some(m)))
+    }
+    fn for_each_rest(self: Box<Self>) -> (usize, Option<Match>) {
+        let mut n = 0usize;
+        let mut last = None;
+        Iterator::for_each(*self, |m| {
+            n += 1;
+            last = Some(m);
+        });
+        (n, last)
+    }
+    fn collect_rest(self: Box<Self>) -> (usize, Option<Match>) {
+        let mut v: Vec<Match> = Iterator::collect(*self);
+        (v.len(), v.pop())
+    }
+    fn find_nonempty(&mut self) -> Option<Match> {
+        Iterator::find(self, |m| m.end() > m.start())
     }
 }
 
@@ -934,11 +968,37 @@ struct Client<'a> {
     kept: Vec<(usize, Match, String)>,
 }
 
+/// Which entry point a Find op uses in the utf16 build stratum: a pure function of the
+/// regex spec and the haystack text, so every pass and the pristine process agree.
+#[cfg(feature = "cfg-utf16")]
+fn find16_kind(spec: &RegexSpec, text: &str) -> Option<u8> {
+    if spec.exec != ExecKind::Backtrack || spec.input != InputKind::Utf8 {
+        return None;
+    }
+    let mut h = Fnv::default();
+    h.str(&spec.pattern);
+    h.str(&spec.flags);
+    h.str(text);
+    match (h.0 >> 11) % 3 {
+        0 => None,
+        1 => Some(0),
+        _ => Some(1),
+    }
+}
+#[cfg(not(feature = "cfg-utf16"))]
+fn find16_kind(_spec: &RegexSpec, _text: &str) -> Option<u8> {
+    None
+}
+
 enum Armed {
     /// iterator next on handle
     Next(u32),
     Drain(u32),
     Find(Arc<Regex>, u32, &'static str),
+    /// utf16 build stratum: the one-shot search goes through find_from_utf16 (kind 0) or
+    /// find_from_ucs2 (kind 1) on the transcoded haystack
+    #[allow(dead_code)]
+    Find16(Arc<Regex>, u32, &'static str, u8),
     Replace(Arc<Regex>, u32, &'static str, String, bool),
     Nested(Arc<Regex>, u32, &'static str, Arc<Regex>, u32),
     Compile(u32, &'static str),
@@ -1201,7 +1261,7 @@ impl<'a> Client<'a> {
                     self.recs.push(OpRec { outcome: "Dead".into(), steps: 0, fault: Fault::None, skipped_dead: true });
                     return;
                 }
-                Some(_) => Armed::Adaptor(*h, *kind % 4, *k),
+                Some(_) => Armed::Adaptor(*h, *kind % 8, *k),
             },
             OpKind::Next { h } | OpKind::Drain { h } => match self.handles.get(*h as usize).and_then(|s| s.as_ref()) {
                 None => {
@@ -1238,7 +1298,13 @@ impl<'a> Client<'a> {
                         self.rec(format!("NoRegex({})", e), 0, Fault::None);
                         return;
                     }
-                    Ok((rx, reidx, _)) => Armed::Find(rx, reidx, self.sh.bufs[hay as usize].text()),
+                    Ok((rx, reidx, _)) => {
+                        let text = self.sh.bufs[hay as usize].text();
+                        match find16_kind(self.spec(reidx), text) {
+                            Some(k) => Armed::Find16(rx, reidx, text, k),
+                            None => Armed::Find(rx, reidx, text),
+                        }
+                    }
                 }
             }
             OpKind::Replace { re, hay, tpl, all } => {
@@ -1457,8 +1523,21 @@ impl<'a> Client<'a> {
                             let ok = hint.0 <= r.len() && hint.1.map(|hi| r.len() <= hi).unwrap_or(true);
                             (format!("SizeHint({:?})", hint), if !ok { Some((format!("size_hint bounds the {} remaining matches", r.len()), format!("{:?}", hint))) } else { None })
                         }
+                        (4..=6, Some(r)) => {
+                            let name = ["Fold", "ForEach", "Collect"][(kind - 4) as usize];
+                            let got = format!("{};{}", n, m.as_ref().map(fmt_match).unwrap_or_else(|| "None".into()));
+                            let exp = format!("{};{}", r.len(), r.last().map(|x| x.0.clone()).unwrap_or_else(|| "None".into()));
+                            (format!("{}({})", name, got), if exp != got { Some((format!("{} over the rest == {}", name, exp), got)) } else { None })
+                        }
+                        (7, Some(r)) => {
+                            let got = m.as_ref().map(fmt_match).unwrap_or_else(|| "None".into());
+                            let exp = r.iter().find(|x| x.2 > x.1).map(|x| x.0.clone()).unwrap_or_else(|| "None".into());
+                            (format!("FindNonEmpty({})", got), if exp != got { Some((format!("find(non-empty) == {}", exp), got)) } else { None })
+                        }
                         (0, None) => (format!("Count({})", n), None),
                         (3, None) => (format!("SizeHint({:?})", hint), None),
+                        (4..=6, None) => (format!("{}({};{})", ["Fold", "ForEach", "Collect"][(kind - 4) as usize], n, m.as_ref().map(fmt_match).unwrap_or_else(|| "None".into())), None),
+                        (7, None) => (format!("FindNonEmpty({})", m.as_ref().map(fmt_match).unwrap_or_else(|| "None".into())), None),
                         (k, None) => (format!("{}({})", if k == 1 { "Last" } else { "Nth" }, m.as_ref().map(fmt_match).unwrap_or_else(|| "None".into())), None),
                         _ => ("?".into(), None),
                     };
@@ -1466,15 +1545,27 @@ impl<'a> Client<'a> {
                         self.stats.model_unknown += 1;
                     }
                     if let Some((exp, obs)) = viol {
-                        self.c09.push(C09Viol { property: "C09", pass: self.sh.pass_no, thread: self.tid, op: i, clause: ["adaptor-count", "adaptor-last", "adaptor-nth", "adaptor-size_hint"][kind as usize], expected: exp, observed: obs });
+                        self.c09.push(C09Viol { property: "C09", pass: self.sh.pass_no, thread: self.tid, op: i, clause: ["adaptor-count", "adaptor-last", "adaptor-nth", "adaptor-size_hint", "adaptor-fold", "adaptor-for_each", "adaptor-collect", "adaptor-find"][kind as usize], expected: exp, observed: obs });
                     }
                     // advance the model the way the adaptor advanced the iterator
                     match kind {
-                        0 | 1 => {
+                        0 | 1 | 4 | 5 | 6 => {
                             hd.model.features |= F_ADAPTOR;
                             hd.model.exhausted = true;
                             hd.model.nexts += 1;
                             hd.dead = false;
+                        }
+                        7 => {
+                            hd.model.features |= F_ADAPTOR;
+                            if let Some(r) = &rest {
+                                match r.iter().position(|x| x.2 > x.1) {
+                                    Some(i) => hd.model.apply_expected(&r[..=i], false),
+                                    None => hd.model.apply_expected(&r[..], true),
+                                }
+                            } else {
+                                hd.dead = true;
+                                hd.it = None;
+                            }
                         }
                         2 => {
                             hd.model.features |= F_ADAPTOR;
@@ -1580,7 +1671,7 @@ impl<'a> Client<'a> {
     /// The one-op world sent to a pristine grandchild for a one-shot op.
     fn pristine_request(&self, op: &Op, a: &Armed) -> Option<String> {
         let text: &str = match a {
-            Armed::Find(_, _, t) | Armed::Replace(_, _, t, _, _) | Armed::Nested(_, _, t, _, _) | Armed::Compile(_, t) => t,
+            Armed::Find(_, _, t) | Armed::Find16(_, _, t, _) | Armed::Replace(_, _, t, _, _) | Armed::Nested(_, _, t, _, _) | Armed::Compile(_, t) => t,
             _ => return None,
         };
         let shared = |r: &ReRef| -> ReRef {
@@ -1634,7 +1725,11 @@ impl<'a> Client<'a> {
                     let mut last = 0;
                     for m in re.find_iter(&copy) {
                         out.push_str(&copy[last..m.start()]);
-                        out.push_str(tpl);
+                        if tpl == "<>" {
+                            out.push_str(&format!("<{}>", m.end() - m.start()));
+                        } else {
+                            out.push_str(tpl);
+                        }
                         last = m.end();
                         if !*all {
                             break;
@@ -1659,6 +1754,10 @@ impl<'a> Client<'a> {
             Armed::Find(_, reidx, text) => {
                 copy = text.to_string();
                 Armed::Find(fresh(self, *reidx)?, *reidx, unsafe { &*(copy.as_str() as *const str) })
+            }
+            Armed::Find16(_, reidx, text, k) => {
+                copy = text.to_string();
+                Armed::Find16(fresh(self, *reidx)?, *reidx, unsafe { &*(copy.as_str() as *const str) }, *k)
             }
             Armed::Replace(_, reidx, text, tpl, all) => {
                 copy = text.to_string();
@@ -1723,6 +1822,21 @@ impl<'a> Client<'a> {
                         let it = hd.it.as_mut().unwrap();
                         ArmedOut::Adapted(2, *k as usize, it.nth_(*k as usize), (0, None))
                     }
+                    4 | 5 | 6 => {
+                        // fold (what max_by_key, partition, ... are built on), for_each, collect
+                        let it = hd.it.take().unwrap();
+                        let (n, last) = match kind {
+                            4 => it.fold_rest(),
+                            5 => it.for_each_rest(),
+                            _ => it.collect_rest(),
+                        };
+                        ArmedOut::Adapted(*kind, n, last, (0, None))
+                    }
+                    7 => {
+                        // find (try_fold family): consumes up to and including the first non-empty match
+                        let it = hd.it.as_mut().unwrap();
+                        ArmedOut::Adapted(7, 0, it.find_nonempty(), (0, None))
+                    }
                     _ => {
                         let it = hd.it.as_ref().unwrap();
                         ArmedOut::Adapted(3, 0, None, it.size_hint_())
@@ -1746,8 +1860,29 @@ impl<'a> Client<'a> {
                     None => "None".into(),
                 })
             }
+            #[cfg(feature = "cfg-utf16")]
+            Armed::Find16(rx, _reidx, text, kind) => {
+                // a new buffer per op, freed afterwards: the allocator hands the same block to
+                // later ops with other contents
+                let t16: Vec<u16> = text.encode_utf16().collect();
+                let v: Vec<String> = if *kind == 0 { rx.find_from_utf16(&t16, 0).take(8).map(|m| fmt_match(&m)).collect() } else { rx.find_from_ucs2(&t16, 0).take(8).map(|m| fmt_match(&m)).collect() };
+                ArmedOut::Text(format!("{}[{}]", if *kind == 0 { "Utf16" } else { "Ucs2" }, v.join(",")))
+            }
+            #[cfg(not(feature = "cfg-utf16"))]
+            Armed::Find16(..) => ArmedOut::Text("?".into()),
             Armed::Replace(rx, _reidx, text, tpl, all) => {
-                let s = if *all { rx.replace_all(text, tpl) } else { rx.replace(text, tpl) };
+                // the template "<>" selects the closure forms (replace_with / replace_all_with)
+                let s = if tpl == "<>" {
+                    if *all {
+                        rx.replace_all_with(text, |m| format!("<{}>", m.end() - m.start()))
+                    } else {
+                        rx.replace_with(text, |m| format!("<{}>", m.end() - m.start()))
+                    }
+                } else if *all {
+                    rx.replace_all(text, tpl)
+                } else {
+                    rx.replace(text, tpl)
+                };
                 ArmedOut::Text(format!("Str({:?})", s))
             }
             Armed::Nested(rx, _reidx, text, ix, iidx) => {
@@ -1811,6 +1946,35 @@ impl<'a> Client<'a> {
                     }
                 }
                 let mut first: Vec<Option<String>> = vec![None; texts.len()];
+                // utf16 build stratum: the same object is also searched through the UTF-16 and
+                // UCS-2 entry points on the transcoded haystacks, interleaved with the UTF-8
+                // searches (mixed history on one object; the hook sites are input-generic)
+                #[cfg(feature = "cfg-utf16")]
+                let texts16: Vec<Vec<u16>> = texts.iter().map(|t| t.encode_utf16().collect()).collect();
+                #[cfg(feature = "cfg-utf16")]
+                let mut first16: Vec<[Option<String>; 2]> = vec![[None, None]; texts.len()];
+                #[cfg(feature = "cfg-utf16")]
+                let with16 = spec.exec == ExecKind::Backtrack && spec.input == InputKind::Utf8;
+                // the reference for each 16-bit search is a lone search on a freshly compiled
+                // private object (count-only mode), not its first occurrence in this burst:
+                // there is no other op that runs these entry points on their own
+                #[cfg(feature = "cfg-utf16")]
+                if with16 {
+                    let fuel = self.sh.world.knobs.fuel.saturating_mul(10);
+                    for j in 0..texts.len() {
+                        for kind in 0..2 {
+                            let t16 = &texts16[j];
+                            let (r, _) = model_mode(fuel, || {
+                                let re = compile(spec).ok()?;
+                                let v: Vec<String> = if kind == 0 { re.find_from_utf16(t16, 0).take(8).map(|m| fmt_match(&m)).collect() } else { re.find_from_ucs2(t16, 0).take(8).map(|m| fmt_match(&m)).collect() };
+                                Some(v.join(","))
+                            });
+                            if let Ok(Some(s)) = r {
+                                first16[j][kind] = Some(s);
+                            }
+                        }
+                    }
+                }
                 let mut out = None;
                 'rounds: for k in 0..*n {
                     for (j, t) in texts.iter().enumerate() {
@@ -1834,10 +1998,48 @@ impl<'a> Client<'a> {
                                 }
                             }
                         }
+                        #[cfg(feature = "cfg-utf16")]
+                        if with16 {
+                            for kk in 0..2 {
+                                // which encoding goes first alternates
+                                let kind = (kk + j + k as usize) % 2;
+                                if let Some(c) = sched::cur_ctx() {
+                                    if !c.model.get() {
+                                        c.op_steps.set(0);
+                                    }
+                                }
+                                // all matches (at most 8), in code units
+                                let v: Vec<String> = if kind == 0 { rx.find_from_utf16(&texts16[j], 0).take(8).map(|m| fmt_match(&m)).collect() } else { rx.find_from_ucs2(&texts16[j], 0).take(8).map(|m| fmt_match(&m)).collect() };
+                                let s = v.join(",");
+                                match &first16[j][kind] {
+                                    None => first16[j][kind] = Some(s),
+                                    Some(f) => {
+                                        if *f != s {
+                                            out = Some(format!("BurstDiffers(n={};{} haystack {:?};alone on a fresh object (or first time): {};round {}: {})", n, if kind == 0 { "utf16" } else { "ucs2" }, t, f, k, s));
+                                            break 'rounds;
+                                        }
+                                    }
+                                }
+                            }
+                        }
                     }
                 }
                 self.stats.bursts += 1;
-                ArmedOut::Text(out.unwrap_or_else(|| format!("Burst(n={};{} haystacks;first={})", n, texts.len(), first[0].clone().unwrap_or_default())))
+                #[cfg(feature = "cfg-utf16")]
+                let tail16 = if with16 {
+                    let mut h = Fnv::default();
+                    for f in &first16 {
+                        for x in f {
+                            h.str(x.as_deref().unwrap_or("-"));
+                        }
+                    }
+                    format!(";u16={:016x};{}", h.0, first16[0][0].clone().unwrap_or_default())
+                } else {
+                    String::new()
+                };
+                #[cfg(not(feature = "cfg-utf16"))]
+                let tail16 = String::new();
+                ArmedOut::Text(out.unwrap_or_else(|| format!("Burst(n={};{} haystacks;first={}{})", n, texts.len(), first[0].clone().unwrap_or_default(), tail16)))
             }
             Armed::Compile(reidx, text) => {
                 let spec = self.spec(*reidx);
